@@ -212,18 +212,18 @@ func judgeJoin(t evid.TB, pl *plan, k int, got []int, liveWant []int) {
 	vc.WantBody = e.body
 	// live tail
 	if len(got) < len(liveWant) {
-		evid.Violation(t, "live-gap", vc, "joiner after %d packets: received %v, but the live part must be %v", k, got, liveWant)
+		evid.Violation(t, "live-gap", vc, "joiner after %d packets: received %v, but the live part must be %v", k, ab(got), ab(liveWant))
 	}
 	split := len(got) - len(liveWant)
 	for i, w := range liveWant {
 		if got[split+i] != w {
-			evid.Violation(t, "seam", vc, "joiner after %d packets: received %v; the packets published after the join are %v and must follow the replay with no gap and no repeat", k, got, liveWant)
+			evid.Violation(t, "seam", vc, "joiner after %d packets: received %v; the packets published after the join are %v and must follow the replay with no gap and no repeat", k, ab(got), ab(liveWant))
 		}
 	}
 	s := got[:split]
 	for _, i := range s {
 		if i >= k {
-			evid.Violation(t, "seam-repeat", vc, "joiner after %d packets: packet %d is delivered both before and within the live part: %v", k, i, got)
+			evid.Violation(t, "seam-repeat", vc, "joiner after %d packets: packet %d is delivered both before and within the live part: %v", k, i, ab(got))
 		}
 		if pl.pubs[i].Channel != rtp.ChannelVideo {
 			// non-video packets in the replay are permitted but must not be out of place; ipchub never replays them
@@ -245,16 +245,16 @@ func judgeJoin(t evid.TB, pl *plan, k int, got []int, liveWant []int) {
 		if bi < len(e.body) && e.body[bi] == i {
 			bi++
 		} else if p := pl.pubs[i]; !(p.Channel == rtp.ChannelVideo && len(p.CarriesPS) > 0 && !p.CarriesVCL) && p.Channel == rtp.ChannelVideo {
-			evid.Violation(t, "body-extra", vc, "joiner after %d packets: replayed body %v contains packet %d which is not part of the current GOP %v", k, bodyGot, i, e.body)
+			evid.Violation(t, "body-extra", vc, "joiner after %d packets: replayed body %v contains packet %d which is not part of the current GOP %v", k, ab(bodyGot), i, ab(e.body))
 		}
 	}
 	if bi != len(e.body) {
-		evid.Violation(t, "body", vc, "joiner after %d packets (cache_gop=%v): replay %v (prelude %v, body %v) but the current GOP is %v [%s …]", k, pl.CacheGop, s, prelude, bodyGot, e.body, descr(pl, e.body))
+		evid.Violation(t, "body", vc, "joiner after %d packets (cache_gop=%v): replay %v (prelude %v, body %v) but the current GOP is %v [%s …]", k, pl.CacheGop, ab(s), ab(prelude), ab(bodyGot), ab(e.body), descr(pl, e.body))
 	}
 	for _, i := range prelude {
 		p := pl.pubs[i]
 		if p.Channel == rtp.ChannelVideo && len(p.CarriesPS) == 0 {
-			evid.Violation(t, "prelude", vc, "joiner after %d packets: packet %d (%s) is replayed ahead of the GOP %v but carries no parameter set: %v", k, i, p.Desc, e.body, s)
+			evid.Violation(t, "prelude", vc, "joiner after %d packets: packet %d (%s) is replayed ahead of the GOP %v but carries no parameter set: %v", k, i, p.Desc, ab(e.body), ab(s))
 		}
 	}
 	// most recent parameter sets
@@ -266,9 +266,24 @@ func judgeJoin(t evid.TB, pl *plan, k int, got []int, liveWant []int) {
 			}
 		}
 		if last != want {
-			evid.Violation(t, "parameter-set", vc, "joiner after %d packets: the most recent packet carrying parameter set type %d is %d (%s); the replay %v ends with carrier %d", k, typ, want, pl.pubs[want].Desc, s, last)
+			evid.Violation(t, "parameter-set", vc, "joiner after %d packets: the most recent packet carrying parameter set type %d is %d (%s); the replay %v ends with carrier %d", k, typ, want, pl.pubs[want].Desc, ab(s), last)
 		}
 	}
+}
+
+// ab abbreviates a long index list for a message (the replay file has it in full).
+func ab(l []int) string {
+	if len(l) <= 40 {
+		return fmt.Sprint(l)
+	}
+	gap := ""
+	for i := 1; i < len(l); i++ {
+		if l[i] != l[i-1]+1 {
+			gap = fmt.Sprintf(" first step that is not +1: %d -> %d at position %d;", l[i-1], l[i], i)
+			break
+		}
+	}
+	return fmt.Sprintf("[%d %d %d … %d %d %d] (%d entries;%s)", l[0], l[1], l[2], l[len(l)-3], l[len(l)-2], l[len(l)-1], len(l), gap)
 }
 
 func descr(pl *plan, idx []int) string {
@@ -528,9 +543,59 @@ type flvCase struct {
 	Audio     bool     `json:"audio"`
 	Packets   []string `json:"packets"`
 	PauseAt   int      `json:"join_after_n_packets"`
+	NoSprop   bool     `json:"sdp_without_sprop,omitempty"`
 	TagsSeen  []string `json:"tags_cached_before_join"`
 	Joiner    []string `json:"joiner_received"`
 	Reference []string `json:"reference"`
+}
+
+// inbandParameterSets puts the real parameter sets, one packet each, in front of
+// the first video packet of the plan; with audioFirst the first audio packet is
+// moved to the very front (audio order and video order stay as they were).
+func inbandParameterSets(pl *plan, audioFirst bool) {
+	fv := -1
+	for i, p := range pl.pubs {
+		if p.Channel == rtp.ChannelVideo {
+			fv = i
+			break
+		}
+	}
+	if fv < 0 {
+		return
+	}
+	first := pl.pubs[fv]
+	sets := [][]byte{esgen.RealH264SPS, esgen.RealH264PPS}
+	if pl.cdc == esgen.H265 {
+		sets = [][]byte{esgen.RealH265VPS, esgen.RealH265SPS, esgen.RealH265PPS}
+	}
+	var ps []*mediah.Pub
+	for i, nal := range sets {
+		raw := rtppack.Pkt{PT: 96, Seq: first.P.SequenceNumber - uint16(len(sets)-i), TS: first.TS, SSRC: first.P.SSRC, Payload: nal}.Marshal()
+		ps = append(ps, &mediah.Pub{P: rtppack.ToIpchub(rtp.ChannelVideo, raw), Channel: rtp.ChannelVideo, TS: first.TS,
+			CarriesPS: map[byte]bool{pl.cdc.NalType(nal): true}, Desc: fmt.Sprintf("in-band parameter set type %d", pl.cdc.NalType(nal))})
+	}
+	var out []*mediah.Pub
+	if audioFirst {
+		for i, p := range pl.pubs {
+			if p.Channel == rtp.ChannelAudio {
+				out = append(out, p)
+				pl.pubs = append(append([]*mediah.Pub{}, pl.pubs[:i]...), pl.pubs[i+1:]...)
+				if i < fv {
+					fv--
+				}
+				break
+			}
+		}
+	}
+	out = append(out, pl.pubs[:fv]...)
+	out = append(out, ps...)
+	out = append(out, pl.pubs[fv:]...)
+	pl.pubs = out
+	pl.Packets = nil
+	for i, p := range pl.pubs {
+		p.Index = i
+		pl.Packets = append(pl.Packets, fmt.Sprintf("%d:ch%d %s ts=%d", i, p.Channel, p.Desc, p.TS))
+	}
 }
 
 func tagStr(tg *flv.Tag) string {
@@ -541,8 +606,18 @@ func TestLateJoinFLV(t *testing.T) {
 	evid.Checks(300, 4000)
 	rapid.Check(t, func(t *rapid.T) {
 		pl := genPlan(t)
+		// a third of the cases: the SDP announces no parameter sets, they arrive in band
+		// (whole, each in a packet of its own) ahead of the first video packet — and, with
+		// audio, possibly after the first audio packets: the FLV converter then has audio
+		// to convert before it can build the video sequence header
+		noSprop := rapid.IntRange(0, 2).Draw(t, "sdpWithoutSprop") == 0
+		audioFirst := false
+		if noSprop {
+			audioFirst = pl.Audio && rapid.Bool().Draw(t, "audioBeforeParameterSets")
+			inbandParameterSets(pl, audioFirst)
+		}
 		config.VerifSet(":0", false, pl.CacheGop, "", 5)
-		s := media.NewStream("/c02/flv", mediah.SDP(pl.cdc, pl.Audio))
+		s := media.NewStream("/c02/flv", mediah.SDPWith(pl.cdc, pl.Audio, !noSprop))
 		defer s.Close()
 		tr := mediah.NewTracker(s)
 		in := sched.New(15 * time.Millisecond)
@@ -698,7 +773,36 @@ func TestLateJoinFLV(t *testing.T) {
 		if m > len(all) {
 			evid.Violation(t, "flv-first-consumer-lost-tags", pl, "%d tags were cached before the join but the from-the-start consumer only received %d", m, len(all))
 		}
-		fc := flvCase{Codec: pl.Codec, CacheGop: pl.CacheGop, Audio: pl.Audio, Packets: pl.Packets, PauseAt: pause}
+		fc := flvCase{Codec: pl.Codec, CacheGop: pl.CacheGop, Audio: pl.Audio, Packets: pl.Packets, PauseAt: pause, NoSprop: noSprop}
+		// absolute part (the rest of the oracle is relative to what the from-the-start
+		// consumer was handed): a joiner can only be given "the metadata tag and the video
+		// and audio sequence headers" if the stream has produced them — in the tag stream
+		// of the stream no media tag may come before the sequence header of its kind, and
+		// none before the metadata tag
+		{
+			seenMeta, seenVH, seenAH := false, false, false
+			for i, p := range all {
+				tg := p.(*flv.Tag)
+				switch k := classify(tg); {
+				case k == flvMeta:
+					seenMeta = true
+				case k == flvVideoHeader:
+					seenVH = true
+				case k == flvAudioHeader:
+					seenAH = true
+				case (k == flvKey || k == flvMedia) && (!seenMeta || (tg.TagType == 9 && !seenVH) || (tg.TagType == 8 && !seenAH)):
+					var l []string
+					for _, q := range all[:i+1] {
+						l = append(l, tagStr(q.(*flv.Tag)))
+					}
+					fc.TagsSeen = l
+					evid.Violation(t, "flv-media-before-headers", fc, "tag %d of the stream's FLV output is a media tag (type %d) but the stream has not produced its headers before it (metadata %v, video sequence header %v, audio sequence header %v): no joiner can be given them; tags so far %v", i, tg.TagType, seenMeta, seenVH, seenAH, l)
+				}
+			}
+		}
+		if noSprop {
+			evid.Class(fmt.Sprintf("flv: SDP without sprop, parameter sets in band (audio first: %v)", audioFirst))
+		}
 		var meta, vh, ah *flv.Tag
 		gopFrom := -1
 		for i := 0; i < m; i++ {
@@ -784,7 +888,13 @@ func TestLateJoinFLV(t *testing.T) {
 // follow — more than the 16-bit RTP sequence space. Joiners arrive far into the
 // stream, in particular just before and after 32768 and 65536 packets, and must
 // still be handed the parameter sets and the current GOP.
-func TestLateJoinLongRunning(t *testing.T) {
+func TestLateJoinLongRunning(t *testing.T) { longRunning(t, false) }
+
+// The same with a single GOP of 70 000 packets: joiners deep inside it (after
+// 1 000 … n-10 packets; n = 20 000 in the quick tier, 70 000 in the thorough one) are owed every packet from the key picture on.
+func TestLateJoinHugeGop(t *testing.T) { longRunning(t, true) }
+
+func longRunning(t *testing.T, hugeGop bool) {
 	for _, cdc := range []esgen.Codec{esgen.H264, esgen.H265} {
 		pl := &plan{cdc: cdc, Codec: cdc.String(), CacheGop: true}
 		seq := uint16(evid.Seed()*7919 + 60000)
@@ -817,7 +927,16 @@ func TestLateJoinLongRunning(t *testing.T) {
 			add(rtppack.H265Single(esgen.RealH265SPS), "sps", map[byte]bool{esgen.H265SPS: true}, false, false, false, false)
 			add(rtppack.H265Single(esgen.RealH265PPS), "pps", map[byte]bool{esgen.H265PPS: true}, false, false, false, false)
 		}
-		const gops, perGop = 1420, 50
+		gops, perGop := 1420, 50
+		if hugeGop {
+			// one key picture at the very start and nothing but inter pictures after it (a
+			// source with an "infinite" key-frame interval, or simply a long one at a high
+			// bitrate): the current GOP is everything since then, however long it has become
+			gops, perGop = 1, 20000
+			if evid.Thorough() {
+				perGop = 70000
+			}
+		}
 		for g := 0; g < gops; g++ {
 			ts += 3000
 			var frags [][]byte
@@ -839,11 +958,22 @@ func TestLateJoinLongRunning(t *testing.T) {
 			}
 		}
 		n := len(pl.pubs)
-		for _, k := range []int{120, 9990, 32740, 32790, 33400, 49000, 65500, 65560, 66100, n - 60} {
+		joins := []int{120, 9990, 32740, 32790, 33400, 49000, 65500, 65560, 66100, n - 60}
+		if hugeGop {
+			joins = []int{1000, 4090, 4100, 4200, 8200, 16390, n - 10}
+			if n > 41000 {
+				joins = append(joins, 40000, 65600)
+			}
+		}
+		for _, k := range joins {
 			pl.Joins = append(pl.Joins, k)
 		}
 		run(t, pl, false)
-		evid.Class("long-running: " + cdc.String() + fmt.Sprintf(" %d packets, parameter sets only at the start", n))
+		if hugeGop {
+			evid.Class("long-running: " + cdc.String() + fmt.Sprintf(" one GOP of %d packets", n))
+		} else {
+			evid.Class("long-running: " + cdc.String() + fmt.Sprintf(" %d packets, parameter sets only at the start", n))
+		}
 	}
 }
 
